@@ -370,7 +370,11 @@ func (C16) Run(s any, c *core.Ctx) core.Outcome {
 		out.Violation = v
 		return out
 	}
-	_, _, _, _, poisoned := parquet.VerifPoolStats()
+	_, _, _, doublePuts, poisoned := parquet.VerifPoolStats()
+	if doublePuts > 0 {
+		out.Violation = core.Violate("C16/pool-double-put/"+sc.Subject, "%d object(s) were put into a process-wide pool while already in it: the next two takers would share one object", doublePuts)
+		return out
+	}
 	c.ProbeN("slices-poisoned", int(min(poisoned, 1<<20)))
 	out.Nontrivial = (len(typed) > 0 || len(clones) > 0) && heldAcross > 0 && sc.Pools.Poison
 	out.Sig = fmt.Sprintf("%s|%s|%s|%s", sc.Plan.Shape, sc.Plan.W.Sig(), sc.Subject, opsig)
